@@ -48,7 +48,7 @@ PROPS = {
         assumptions=["summaries bound the stored values (C08 summary_bounds)", "numpy astype between integer widths wraps (two's complement)"],
     ),
     "C13": dict(
-        units=["GenOverlap", "GenScan"],
+        units=["GenOverlap", "GenScan", "GenEncoders"],
         genextract="Overlap",
         props_files=["Props/C13.v"],
         driver="c13",
